@@ -497,7 +497,7 @@ def mutate(rng, data, fields, hlen, mode, m, cov):
     # header line hostility (header is text in every mode)
     hit('header')
     lines = bytes(b[:hlen]).split(b'\n')
-    i = r.randrange(0, 10)
+    i = r.randrange(0, max(1, min(10, len(lines))))
     toks = lines[i].split()
     ch = r.random()
     if toks and ch < 0.6:
